@@ -214,8 +214,9 @@ class Asian(Underlying):
     ) -> np.array:
         """:return: the average of the spot underlying over the times"""
         res, last_t = 0, 0
-        path = self._spot.value(times, path, jump_path, payoff_underlying)
-        for t, val in zip(times, path):
+        for k, t in enumerate(times):
+            # spot at time t_k: the spot underlying (which knows the process representation) of the path up to t_k
+            val = self._spot.value(times, path[..., : k + 1], jump_path, payoff_underlying)
             last_t, res = t, res + val * (t - last_t)
 
         return res / last_t
